@@ -71,12 +71,12 @@ def run(ctx):
             wd, _ = gen.gen_vector(rng, enz, gen.ovh(rng, enz), gen.ovh(rng, enz))
         if rng.random() < 0.15:
             wd = T.mutate(rng, wd)
-        check_typing(ctx, {"cls": "generic:{}:{}".format(kind, enz), "word": gen.rot(wd, rng.randrange(len(wd)))})
+        ctx.guard(check_typing, {"cls": "generic:{}:{}".format(kind, enz), "word": gen.rot(wd, rng.randrange(len(wd)))})
     for enz in asm.pick_enzymes(rng, ctx.budget(250, 10000)):
         g = asm.gen_wellformed(rng, enz, rng.randint(1, 4))
         if g is None:
             continue
-        check_assembly(ctx, g[0])
+        ctx.guard(check_assembly, g[0])
     if ctx.tier == "thorough" and ctx.scale == 1:
         import boot
         import extract
@@ -104,6 +104,6 @@ def run(ctx):
 
 def check_case(ctx, case):
     if "vector" in case:
-        check_assembly(ctx, case)
+        ctx.guard(check_assembly, case)
     elif "cls" in case:
-        check_typing(ctx, case)
+        ctx.guard(check_typing, case)
